@@ -99,7 +99,15 @@ impl WorkerMonitor {
     /// given `goal`.
     pub fn make_request(&self, goal: WorkerGoal) {
         let mut guard = self.sync.lock().unwrap();
+        #[cfg(feature = "mmtk_verif")]
+        crate::verif::gc::ev(crate::verif::gc::Kind::MonMakeRequest, goal as usize, 0);
         let newly_requested = guard.goals.set_request(goal);
+        #[cfg(feature = "mmtk_verif")]
+        crate::verif::gc::ev(
+            crate::verif::gc::Kind::MonRequested,
+            goal as usize,
+            newly_requested as usize,
+        );
         if newly_requested {
             self.notify_work_available(false);
         }
@@ -108,6 +116,8 @@ impl WorkerMonitor {
     /// Wake up workers when more work packets are made available for workers,
     /// or a mutator has requested the GC workers to schedule a GC.
     pub fn notify_work_available(&self, all: bool) {
+        #[cfg(feature = "mmtk_verif")]
+        crate::verif::gc::ev(crate::verif::gc::Kind::MonNotify, all as usize, 0);
         if all {
             self.workers_have_anything_to_do.notify_all();
         } else {
@@ -132,10 +142,18 @@ impl WorkerMonitor {
     where
         F: FnOnce(&mut WorkerGoals) -> LastParkedResult,
     {
+        #[cfg(feature = "mmtk_verif")]
+        crate::verif::gc::yp(crate::verif::gc::Site::ParkBeforeLock);
         let mut sync = self.sync.lock().unwrap();
 
         // Park this worker
         let all_parked = sync.parker.inc_parked_workers();
+        #[cfg(feature = "mmtk_verif")]
+        crate::verif::gc::ev(
+            crate::verif::gc::Kind::MonPark,
+            ordinal,
+            all_parked as usize,
+        );
         trace!(
             "Worker {} parked.  parked/total: {}/{}.  All parked: {}",
             ordinal,
@@ -149,6 +167,16 @@ impl WorkerMonitor {
         if all_parked {
             trace!("Worker {} is the last worker parked.", ordinal);
             let result = on_last_parked(&mut sync.goals);
+            #[cfg(feature = "mmtk_verif")]
+            crate::verif::gc::ev(
+                crate::verif::gc::Kind::MonLastParked,
+                ordinal,
+                match &result {
+                    LastParkedResult::ParkSelf => 0,
+                    LastParkedResult::WakeSelf => 1,
+                    LastParkedResult::WakeAll => 2,
+                },
+            );
             match result {
                 LastParkedResult::ParkSelf => {
                     should_wait = true;
@@ -218,11 +246,17 @@ impl WorkerMonitor {
             //     and park again if not available.  The last parked worker will ensure the two
             //     conditions listed above are both false before blocking.  If either condition is
             //     true, the last parked worker will take action.
+            #[cfg(feature = "mmtk_verif")]
+            crate::verif::gc::ev(crate::verif::gc::Kind::MonWait, ordinal, 0);
             sync = self.workers_have_anything_to_do.wait(sync).unwrap();
+            #[cfg(feature = "mmtk_verif")]
+            crate::verif::gc::ev(crate::verif::gc::Kind::MonWake, ordinal, 0);
         }
 
         // Unpark this worker.
         sync.parker.dec_parked_workers();
+        #[cfg(feature = "mmtk_verif")]
+        crate::verif::gc::ev(crate::verif::gc::Kind::MonUnpark, ordinal, 0);
         trace!(
             "Worker {} unparked.  parked/total: {}/{}.",
             ordinal,
@@ -235,6 +269,12 @@ impl WorkerMonitor {
             sync.goals.current(),
             Some(WorkerGoal::Shutdown | WorkerGoal::StopForFork)
         ) {
+            #[cfg(feature = "mmtk_verif")]
+            crate::verif::gc::ev(
+                crate::verif::gc::Kind::MonExit,
+                ordinal,
+                sync.goals.current().map_or(0xff, |g| g as usize),
+            );
             return Err(WorkerShouldExit);
         }
 
@@ -244,6 +284,18 @@ impl WorkerMonitor {
     /// Called when all workers have exited.
     pub fn on_all_workers_exited(&self) {
         let mut sync = self.sync.try_lock().unwrap();
+        #[cfg(feature = "mmtk_verif")]
+        crate::verif::gc::ev(
+            crate::verif::gc::Kind::MonAllExited,
+            sync.goals.current().map_or(0xff, |g| g as usize),
+            0,
+        );
+        #[cfg(feature = "mmtk_verif")]
+        crate::verif::gc::ev(
+            crate::verif::gc::Kind::GoalCompleted,
+            sync.goals.current().map_or(0xff, |g| g as usize),
+            0,
+        );
         sync.goals.on_current_goal_completed();
     }
 }
